@@ -98,7 +98,7 @@ void bn_rec_win(uint8_t *win, size_t *len, const bn_t k, size_t w) {
 	l = bn_bits(k);
 
 	/* Zero is recoded as a single zero window. */
-	if (*len < RLC_MAX(RLC_CEIL(l, w), 1)) {
+	if (*len < (l == 0 ? 1 : RLC_CEIL((size_t)l, w))) {
 		*len = 0;
 		RLC_THROW(ERR_NO_BUFFER);
 		return;
